@@ -100,4 +100,13 @@ def run(cfg, ops=None, rng=None):
         except Watchdog as wd:
             raise Violation("C04", "hang", step, "nav:hang", "after step %d %s: a navigation query does not terminate (%s)" % (step, op, wd))
 
-    return struct.run(cfg, ops=ops, rng=rng, extra=extra)
+    res = struct.run(cfg, ops=ops, rng=rng, extra=extra)
+    if res.violation is None and not cfg.get("big") and getattr(res, "world", None) is not None and res.steps % 2 == 0:
+        from .queries import lifetime_probe
+
+        world, res.world = res.world, None
+        bad = lifetime_probe(world)
+        res.bump("lifetime_probes")
+        if bad:
+            res.violation = Violation("C04", "lifetime", len(res.ops), "nav:lifetime", "at the end of the run: " + bad)
+    return res
